@@ -37,6 +37,52 @@ type Exec struct {
 	stdInit         map[*ssa.Package]bool
 }
 
+// SymElemPtr addresses element idx (symbolic, already known to be in range) of a scalar-element array or slice:
+// loads become ite chains and stores conditional updates, instead of one path per possible index.
+type SymElemPtr struct {
+	elems []Value
+	idx   *Term
+}
+
+func allScalar(vs []Value) bool {
+	for _, v := range vs {
+		if t, ok := v.(*Term); !ok || t == nil {
+			return false
+		}
+	}
+	return len(vs) > 0
+}
+
+func (x *Exec) symLoad(p SymElemPtr) Value {
+	st := x.c.st
+	r := p.elems[len(p.elems)-1].(*Term)
+	for i := len(p.elems) - 2; i >= 0; i-- {
+		r = st.Ite(st.Eq(p.idx, st.Const(p.idx.w, uint64(i))), p.elems[i].(*Term), r)
+	}
+	return r
+}
+
+func (x *Exec) symStore(p SymElemPtr, v Value) {
+	st := x.c.st
+	nv := v.(*Term)
+	for i := range p.elems {
+		p.elems[i] = st.Ite(st.Eq(p.idx, st.Const(p.idx.w, uint64(i))), nv, p.elems[i].(*Term))
+	}
+}
+
+// symIndexOK: for a symbolic index into scalar elements, split only on in-range / out-of-range.
+func (x *Exec) symIndexOK(idx *Term, elems []Value) bool {
+	if idx.op == OpConst || !allScalar(elems) || len(elems) > 64 {
+		return false
+	}
+	st := x.c.st
+	inRange := st.And(st.Cmp(OpSle, st.Const(idx.w, 0), idx), st.Cmp(OpSlt, idx, st.Const(idx.w, uint64(len(elems)))))
+	if !x.c.Branch(inRange) {
+		x.gopanic("index out of range [symbolic] with length %d", len(elems))
+	}
+	return true
+}
+
 type deferred struct {
 	fn   Value
 	args []Value
@@ -214,6 +260,7 @@ func (x *Exec) run(fr *Frame) Value {
 			fr.env[block.Instrs[i].(*ssa.Phi)] = phiVals[i]
 		}
 		n := int64(len(block.Instrs) - nphi)
+		x.c.where = fr.fn
 		x.steps += n
 		x.fcount[fr.fn] += n
 		if x.steps > x.c.cfg.MaxSteps {
@@ -374,6 +421,10 @@ func (x *Exec) instr(fr *Frame, ins ssa.Instruction) {
 	case *ssa.Go:
 		x.engineErr("go statement not supported")
 	case *ssa.Store:
+		if sp, ok := fr.get(x, ins.Addr).(SymElemPtr); ok {
+			x.symStore(sp, fr.get(x, ins.Val))
+			break
+		}
 		p := fr.get(x, ins.Addr).(*Value)
 		if p == nil {
 			x.gopanic("invalid memory address or nil pointer dereference (store)")
@@ -406,9 +457,23 @@ func (x *Exec) instr(fr *Frame, ins ssa.Instruction) {
 		idx := fr.get(x, ins.Index).(*Term)
 		switch xv := xv.(type) {
 		case Str:
+			if idx.op != OpConst && len(xv.b) > 0 && len(xv.b) <= 64 {
+				vs := make([]Value, len(xv.b))
+				for i, b := range xv.b {
+					vs[i] = b
+				}
+				if x.symIndexOK(idx, vs) {
+					fr.env[ins] = x.symLoad(SymElemPtr{vs, idx})
+					break
+				}
+			}
 			i := x.index(idx, len(xv.b))
 			fr.env[ins] = xv.b[i]
 		case Array:
+			if x.symIndexOK(idx, xv) {
+				fr.env[ins] = x.symLoad(SymElemPtr{xv, idx})
+				break
+			}
 			i := x.index(idx, len(xv))
 			fr.env[ins] = xv[i]
 		default:
@@ -419,6 +484,10 @@ func (x *Exec) instr(fr *Frame, ins ssa.Instruction) {
 		idx := fr.get(x, ins.Index).(*Term)
 		switch xv := xv.(type) {
 		case Slice:
+			if x.symIndexOK(idx, xv.a) {
+				fr.env[ins] = SymElemPtr{xv.a, idx}
+				break
+			}
 			i := x.index(idx, len(xv.a))
 			fr.env[ins] = &xv.a[i]
 		case *Value:
@@ -426,6 +495,10 @@ func (x *Exec) instr(fr *Frame, ins ssa.Instruction) {
 				x.gopanic("nil pointer dereference (index of nil array pointer)")
 			}
 			a := (*xv).(Array)
+			if x.symIndexOK(idx, a) {
+				fr.env[ins] = SymElemPtr{a, idx}
+				break
+			}
 			i := x.index(idx, len(a))
 			fr.env[ins] = &a[i]
 		default:
@@ -445,8 +518,30 @@ func (x *Exec) instr(fr *Frame, ins ssa.Instruction) {
 		}
 		ln := x.allocLen(n)
 		cn := ln
-		if cp.op == OpConst && int(sval(cp.w, cp.k)) > ln {
-			cn = int(sval(cp.w, cp.k))
+		if cp.op == OpConst {
+			if c := sval(cp.w, cp.k); c < int64(ln) && ins.Cap != ins.Len {
+				x.gopanic("makeslice: cap out of range")
+			} else if int(c) > ln {
+				if c > 1<<26 {
+					x.engineErr("make() with capacity %d", c)
+				}
+				cn = int(c)
+			}
+		} else if ins.Cap != ins.Len {
+			c64 := cp
+			if ii, ok := basicInfo(ins.Cap.Type()); ok && cp.w < 64 {
+				if ii.signed {
+					c64 = x.c.st.Sext(cp, 64)
+				} else {
+					c64 = x.c.st.Zext(cp, 64)
+				}
+			}
+			if x.c.Branch(x.c.st.Cmp(OpSlt, c64, x.intConst(int64(ln)))) {
+				x.gopanic("makeslice: cap out of range")
+			}
+			if x.c.Branch(x.c.st.Cmp(OpSlt, x.intConst(1<<26), c64)) {
+				x.gopanic("makeslice: capacity taken from input may exceed 64 MiB (cap out of range / unbounded allocation)")
+			}
 		}
 		elem := under(ins.Type()).(*types.Slice).Elem()
 		a := make([]Value, ln, cn)
@@ -602,6 +697,9 @@ func (x *Exec) allocLen(n *Term) int {
 	if x.c.Branch(st.Cmp(OpSlt, n, st.Const(n.w, 0))) {
 		x.gopanic("makeslice: len out of range")
 	}
+	if x.c.Branch(st.Cmp(OpSlt, st.Const(n.w, 1<<26), n)) {
+		x.gopanic("makeslice: length taken from input may exceed 64 MiB (len out of range / unbounded allocation)")
+	}
 	if x.c.Branch(st.Cmp(OpSlt, st.Const(n.w, uint64(lim)), n)) {
 		x.c.notes = append(x.c.notes, "oversized allocation (symbolic length above guard)")
 		return int(lim) + 1
@@ -727,6 +825,9 @@ func (x *Exec) unop(fr *Frame, ins *ssa.UnOp) Value {
 	v := fr.get(x, ins.X)
 	switch ins.Op {
 	case token.MUL:
+		if sp, ok := v.(SymElemPtr); ok {
+			return x.symLoad(sp)
+		}
 		p, ok := v.(*Value)
 		if !ok {
 			x.engineErr("load through %T", v)
